@@ -28,7 +28,7 @@ EO_OBJ = ["accuracy_score", "balanced_accuracy_score"]
 CONSTRAINTS6 = ["demographic_parity", "false_positive_rate_parity", "false_negative_rate_parity",
                 "true_positive_rate_parity", "true_negative_rate_parity", "equalized_odds"]
 GRIDS = [1, 2, 3, 4, 5, 7, 10]
-SCALES = [(1, 1), (1, 4), (3, 1), (1, 2), (1, 2 ** 36)]   # the last: neighbouring scores 1.5e-11 apart (exact dyadics)
+SCALES = [(1, 1), (1, 4), (3, 1), (1, 2), (1, 2 ** 36), (1, 2 ** 18), (1, 2 ** 17)]   # 2^-36: neighbouring scores 1.5e-11 apart; 2^-18, 2^-17: a few 1e-6 apart (all exact dyadics)
 OFFSETS = [(0, 1), (-1, 1), (-5, 2), (1, 4)]
 TOL = 1e-9
 
